@@ -62,6 +62,7 @@ pub fn child_main(job: &Value) -> Value {
         Some("c10big") => crate::props::c10::job(job),
         Some("c11big") => crate::props::c11::job(job),
         Some("c20big") => crate::props::c20::job(job),
+        Some("c12big") => crate::props::c12::job(job),
         other => serde_json::json!({"error": format!("unknown job kind {other:?}")}),
     }
 }
